@@ -1006,11 +1006,13 @@ lydxml_subtree_r(struct lyd_xml_ctx *lydctx, struct lyd_node *parent, struct lyd
     uint32_t orig_parse_opts;
     struct lyd_node *node = NULL, *insert_anchor = NULL;
     ly_bool parse_subtree;
+    struct lyd_ctx_unres_count unres_count;
 
     assert(parent || first_p);
 
     xmlctx = lydctx->xmlctx;
     ctx = xmlctx->ctx;
+    lyd_parser_unres_count((struct lyd_ctx *)lydctx, &unres_count);
 
     parse_subtree = lydctx->parse_opts & LYD_PARSE_SUBTREE ? 1 : 0;
     /* all descendants should be parsed */
@@ -1123,7 +1125,11 @@ node_parsed:
         LY_CHECK_ERR_GOTO(r, rc = r; lyd_free_tree(node), cleanup);
     }
 
-    LY_CHECK_GOTO(!node, cleanup);
+    if (!node) {
+        /* no node to insert, forget the unresolved metadata and descendants if it was freed */
+        lyd_parser_unres_trim((struct lyd_ctx *)lydctx, &unres_count);
+        goto cleanup;
+    }
 
     /* add metadata/attributes */
     if (snode) {
